@@ -200,8 +200,16 @@ class NFDomain(Domain):
             return NF.atom(f"diff({n(args[0]).canon()})")
         if fname == "np.add" and len(args) == 2:
             return n(args[0]) + n(args[1])
+        if fname == "np.subtract" and len(args) == 2:
+            return n(args[0]) - n(args[1])
         if fname == "np.multiply" and len(args) >= 2:
             return n(args[0]) * n(args[1])
+        if fname in ("np.divide", "np.true_divide") and len(args) == 2:
+            return n(args[0]) / n(args[1])
+        if fname == "np.negative" and len(args) == 1:
+            return -n(args[0])
+        if fname == "np.square" and len(args) == 1:
+            return n(args[0]) * n(args[0])
         if fname == "np.where" and len(args) == 3:
             c = args[0]
             if isinstance(c, bool):
